@@ -24,9 +24,12 @@ MC_ScalarLitsSmall == {LitS("int", Q(2, 1)), LitS("float", Q(1, 2))}
 MC_SOps == {"+", "-", "*", "/", "**"}
 MC_VOps == {"+", "-", "*", "/", "**"}
 MC_Senses == {}
+MC_Stages == <<>>
+MC_FinalEn == {}
 MC_Want == {"V"}
 MC_WantD == {"D"}
 MC_WantDV == {"D", "V"}
 MC_WantH == {"D", "H", "V"}
+MC_NoPR(o) == <<>>
 ASSUME PrintT(<<"BASE", BaseCalls, BaseHeap, AllNames>>)
 =============================================================================
